@@ -35,6 +35,43 @@ def layouts(h, w, alphabet, default, kmax, need):
                 yield tuple(''.join(g[i * w:(i + 1) * w]) for i in range(h))
 
 
+def cut_layouts(h, w, alphabet, default, cutalpha, extra, start, kmax):
+    """The "cut family" on an h x w grid: one complete row or column carries a word over `cutalpha`
+    (every word), one `start` cell anywhere off that line, and at most `extra` (0 or 1) further
+    cells carrying any non-default symbol.  Layouts that layouts(..., kmax, ...) already yields
+    (at most kmax non-default cells) and duplicates are skipped."""
+    n = h * w
+    nd = [c for c in alphabet if c != default]
+    seen = set()
+    lines = [[r * w + c for c in range(w)] for r in range(h)] + [[r * w + c for r in range(h)] for c in range(w)]
+    kk = n if kmax is None else kmax
+    for line in lines:
+        rest = [c for c in range(n) if c not in line]
+        for word in itertools.product(cutalpha, repeat=len(line)):
+            for st in rest:
+                g = [default] * n
+                for c, s in zip(line, word):
+                    g[c] = s
+                g[st] = start
+                variants = [g]
+                if extra:
+                    for e in rest:
+                        if e == st:
+                            continue
+                        for s in nd:
+                            g2 = list(g)
+                            g2[e] = s
+                            variants.append(g2)
+                for v in variants:
+                    if sum(1 for c in v if c != default) <= kk:
+                        continue
+                    rows = tuple(''.join(v[i * w:(i + 1) * w]) for i in range(h))
+                    if rows in seen:
+                        continue
+                    seen.add(rows)
+                    yield rows
+
+
 def count_layouts(h, w, n_alphabet, kmax, n_need):
     """Closed-form size of layouts(...) (used for the bounds record)."""
     n = h * w
@@ -70,7 +107,7 @@ class Audit:
         self.depth = 0
         self.reached = {}          # state -> depth
         self.absorbing = set()
-        self.self_loop_nonabsorbing = 0   # (s, a) pairs of non-absorbing s with all mass on s
+        self.self_loops = set()    # actions a for which some reached non-absorbing s has all mass on s
         self.outside_pos = []      # (s, a, ns): positive-probability successors outside state_list
         self.outside_zero = []     # (s, a, ns): zero-probability entries outside state_list
         self.state_list = None
@@ -192,8 +229,8 @@ def audit(dom, pomdp=False, plan=True, vi_cap=None):
                 elif p == 0 and sset is not None and ns not in sset:
                     au.outside_zero.append((s, a, ns))
             au.edges[(s, a)] = pos
-            if not absorbing and len(pos) == 1 and s in pos:
-                au.self_loop_nonabsorbing += 1
+            if expand and not absorbing and len(pos) == 1 and s in pos:
+                au.self_loops.add(a)
             for ns, p in pos.items():
                 au.n_edges += 1
                 if sset is not None and ns not in sset:
@@ -318,11 +355,7 @@ def audit(dom, pomdp=False, plan=True, vi_cap=None):
         if pomdp and float(dom.discount_rate) < 1:
             from msdm.algorithms.qmdp import QMDP
             try:
-                q = QMDP(mdp_solver=ValueIteration()).plan_on(dom)
-                b0 = q.policy.initial_agentstate()
-                v0 = float(q.policy.value(b0))
-                if not math.isfinite(v0):
-                    au.add('plan:qmdp_initial_value_not_finite', {'value': v0})
+                QMDP(mdp_solver=ValueIteration()).plan_on(dom)
             except CA as e:
                 key = e.args[0] if isinstance(e, KeyError) and e.args else None
                 au.add('exception:plan:QMDP', _exc_detail('QMDP(ValueIteration()).plan_on', e), e, 'plan:qmdp', key=key)
